@@ -356,6 +356,18 @@ def main(argv):
             ck.notes.append("backend %s has a property entry the model cannot represent; skipped." % nm); continue
         native = next((g for g in desc["basis"] if g in ("ecr", "cx")), "none")
         kinds[native] = kinds.get(native, 0) + 1
+        if sum(g in ("ecr", "cx") for g in desc["basis"]) > 1:      # informational: both gates in the basis, the first one wins
+            try:
+                edges = {tuple(e) for e in b.coupling_map.get_edges()}
+                cal = {tuple(pr) for pr in b.target[native].keys() if pr is not None and len(pr) == 2}
+                left = sorted(edges - cal)
+                ck.extra.setdefault("backends_with_both_ecr_and_cx", {})[nm] = {
+                    "native_by_basis_order": native, "coupled_ordered_pairs": len(edges), "pairs_calibrated_under_that_gate": len(cal),
+                    "coupled_pairs_left_zero": [list(x) for x in left]}
+                ck.notes.append("%s lists both ecr and cx; by the fixed reading the first in basis order (%s) is the native gate, so %d of its %d coupled "
+                                "ordered pairs (calibrated under the other gate) stay zero in p_int/t_int." % (nm, native, len(left), len(edges)))
+            except Exception as e:  # noqa
+                ck.notes.append("could not inspect the coupling map of %s (%s)." % (nm, type(e).__name__))
         for lname, lay in layouts_for(desc["nq"], rng, ck.tier):
             res = run_impl(DP, b, lay, T)
             verdict, text = oracle(b, lay, res)
